@@ -1,5 +1,6 @@
 import abc
 import re
+import string
 import uuid
 from datetime import date
 from decimal import Decimal
@@ -165,14 +166,13 @@ class Route(Generic[Interface]):
         self.path_format: str
         self.path_convertors: Dict[str, Convertor]
         self.path_format, self.path_convertors = compile_path(path)
-        self.re_pattern = re.compile(
-            self.path_format.format_map(
-                {
-                    name: f"(?P<{name}>{convertor.regex})"
-                    for name, convertor in self.path_convertors.items()
-                }
-            )
-        )
+        pattern = ""
+        for literal, name, _, _ in string.Formatter().parse(self.path_format):
+            # literal text is matched verbatim, only placeholders are patterns
+            pattern += re.escape(literal)
+            if name is not None:
+                pattern += f"(?P<{name}>{self.path_convertors[name].regex})"
+        self.re_pattern = re.compile(pattern)
         self.endpoint: Interface = endpoint
 
     def matches(self, path: str) -> Tuple[bool, Dict[str, Any]]:
